@@ -458,6 +458,66 @@ func gen() ([]byte, error) {
 		}
 		rows = append(rows, fmt.Sprintf("(%s, %s)", tx.CoqString("Routers."+name), strList(lockTokens(fd))))
 	}
-	b.WriteString("Definition c06_router_locks : list (string * list string) := [\n  " + strings.Join(rows, ";\n  ") + "\n].\n")
+	b.WriteString("Definition c06_router_locks : list (string * list string) := [\n  " + strings.Join(rows, ";\n  ") + "\n].\n\n")
+	// Muxer.handle: every look-up of the route and every hand-over to a listener, in source order
+	hd := findMethod(vhostF, "Muxer", "handle")
+	if hd == nil || hd.Body == nil {
+		return nil, fmt.Errorf("Muxer.handle not found")
+	}
+	var mt []string
+	ast.Inspect(hd.Body, func(n ast.Node) bool {
+		switch x := n.(type) {
+		case *ast.CallExpr:
+			if sel, ok := x.Fun.(*ast.SelectorExpr); ok && sel.Sel.Name == "getListener" {
+				mt = append(mt, "GetListener")
+			}
+		case *ast.SendStmt:
+			if sel, ok := x.Chan.(*ast.SelectorExpr); ok && sel.Sel.Name == "accept" {
+				mt = append(mt, "Handoff")
+			} else {
+				mt = append(mt, "Unknown:"+show(x))
+			}
+		}
+		return true
+	})
+	b.WriteString("Definition c06_mux_handle : list string := " + strList(mt) + ".\n\n")
+	// HTTPSProxy.Run: per Listen site, is the listener tracked (append to pxy.listeners) before or after
+	// the error of Listen is looked at
+	httpsF, err := parse("server/proxy/https.go")
+	if err != nil {
+		return nil, err
+	}
+	rn := findMethod(httpsF, "HTTPSProxy", "Run")
+	if rn == nil || rn.Body == nil {
+		return nil, fmt.Errorf("HTTPSProxy.Run not found")
+	}
+	var rt []string
+	ast.Inspect(rn.Body, func(n ast.Node) bool {
+		switch x := n.(type) {
+		case *ast.DeferStmt:
+			return false // the deferred rollback is not part of the per-domain sequence
+		case *ast.CallExpr:
+			if sel, ok := x.Fun.(*ast.SelectorExpr); ok && sel.Sel.Name == "Listen" {
+				rt = append(rt, "Listen")
+			}
+			if id, ok := x.Fun.(*ast.Ident); ok && id.Name == "append" && len(x.Args) > 0 && strings.HasSuffix(show(x.Args[0]), ".listeners") {
+				rt = append(rt, "Track")
+			}
+		case *ast.IfStmt:
+			if be, ok := x.Cond.(*ast.BinaryExpr); ok && be.Op == token.NEQ && strings.HasPrefix(show(be.X), "err") && show(be.Y) == "nil" {
+				ret := false
+				for _, st := range x.Body.List {
+					if _, ok := st.(*ast.ReturnStmt); ok {
+						ret = true
+					}
+				}
+				if ret {
+					rt = append(rt, "ErrReturn")
+				}
+			}
+		}
+		return true
+	})
+	b.WriteString("Definition c06_https_run : list string := " + strList(rt) + ".\n")
 	return b.Bytes(), nil
 }
